@@ -87,6 +87,19 @@ def run_real(op, tl, par):
     for (t, k, v) in tl:
         msgs.append(ReactiveTest.on_next(t, v) if k == "N" else (ReactiveTest.on_error(t, Boom("src")) if k == "E" else ReactiveTest.on_completed(t)))
     xs = s.create_hot_observable(*msgs)
+    if par.get("sync_outer"):
+        # the outer sequence notifies from INSIDE its subscribe call (a created observable that pushes at once): every inner - and the outer's
+        # terminal - arrives before the operator has got the outer's subscription handle back
+        def sub_outer(o, sch=None, _tl=list(tl)):
+            for (_t, k, v) in _tl:
+                if k == "N":
+                    o.on_next(v)
+                elif k == "E":
+                    o.on_error(Boom("src"))
+                else:
+                    o.on_completed()
+            return Disposable()
+        xs = rx.create(sub_outer)
     of_inner = xs.pipe(ops.map(lambda v: pool[pick(op, v, 0)]))
     if op == "merge_all":
         o = of_inner.pipe(ops.merge_all())
@@ -137,6 +150,9 @@ def reference(op, tl, par):
         for v in vs:
             heapq.heappush(q, (SUB, next(seq), "outer", ("N", v)))
         heapq.heappush(q, (SUB, next(seq), "outer", ("C", None)))
+    elif par.get("sync_outer"):
+        for (t, k, v) in tl:
+            heapq.heappush(q, (SUB, next(seq), "outer", (k, v)))
     else:
         for (t, k, v) in tl:
             heapq.heappush(q, (t, next(seq), "outer", (k, v)))
@@ -313,7 +329,10 @@ def main(argv):
     t_end = time.time() + min(float(opts.get("budget_s", 300)), 600)
     tls = timelines(min(opts.get("max_len", 2), 3))
     for op in order:
-        for par in PARS.get(op, [{}]):
+        pars = list(PARS.get(op, [{}]))
+        if op not in ("merge_nary", "merge_with"):
+            pars += [dict(p_, sync_outer=True) for p_ in pars]
+        for par in pars:
             if time.time() > t_end:
                 break
             for tl in tls:
